@@ -28,6 +28,7 @@ func init() {
 	register("C14", true, checkC14)
 	register("C13", true, checkC13)
 	register("C05", true, checkC05)
+	register("C20", true, checkC20)
 }
 
 func main() {
